@@ -641,4 +641,221 @@ theorem dispatch_mov_sreg (c : Model.X86.Ctx) (row : Row) (k : RegKind) (i s : N
   rcases hk with h | h | h <;> subst h <;> constructor <;>
     simp [dispatch, henc, sig3, Op.kind, Op.id, Op.rmSize, Op.isGp, rtypeOf, kindSize, movSregOpc]
 
+/-! ### ALTERNATIVE register-register encodings selected by `mod_rm()` (InstOptions::kX86_ModRM): X86Arith `op reg, reg` emitted as
+`op reg, r/m` (opcode + 2) and X86Mov `mov reg, reg` emitted as `8B /r` - the two operands change fields (destination in ModRM.reg).
+(ExtMov with `mod_mr()`: `dispatch_extmov` + `emitX86R_modmr` + `front_cls_correct_lmr`.) -/
+
+theorem emitX86R_modrm (op a b : BitVec 32) (i : BitVec 64) (n : Nat) : emitX86R op oModRM a b i n = emitX86R op 0#32 a b i n := by
+  have e : extractRex op oModRM = extractRex op 0#32 := by simp only [extractRex, oModRM]; bv_decide
+  simp only [emitX86R, e]
+
+def arithAltOp (e : Entry) : BitVec 32 := addArithBySize e.mainOp (kindSize (e.kinds.getD 0 .none)) + 2#32
+def movAltOp (e : Entry) : BitVec 32 := addPrefixBySize 0x89#32 (kindSize (e.kinds.getD 0 .none)) + 2#32
+
+def entryOkRRalt (enc : Nat) (opOf : Entry → BitVec 32) (e : Entry) : Bool :=
+  match e.rule.ops, e.kinds with
+  | [f0, f1], [k0, k1] =>
+    is8 k0 || is8 k1 ||       -- 8-bit pairs: the option-carrying REX fix-ups are not covered here
+    (e.enc == enc && (legRuleOk e.rule 0 ((opOf e >>> 21) &&& 3#32).toNat && (legAgreeOk e.rule (opOf e) &&
+    (f0.role == .reg && (f1.role == .rm && (plainKind k0 && (plainKind k1 && (noFix f0 && (noFix f1 &&
+    (formOpMatches e.rule.oszEff f0 (.reg k0 0) && formOpMatches e.rule.oszEff f1 (.reg k1 0)))))))))))
+  | _, _ => false
+
+theorem arith_alt_entries_ok : larithrmChunks.all (fun c => c.all (entryOkRRalt 0x19 arithAltOp)) = true := by decide +kernel
+theorem mov_alt_entries_ok : lmovrmChunks.all (fun c => c.all (entryOkRRalt 0x2c movAltOp)) = true := by decide +kernel
+
+theorem rr_alt_formOk (enc : Nat) (opOf : Entry → BitVec 32) (e : Entry) (hok : entryOkRRalt enc opOf e = true)
+    (ctx : Spec.X86.Ctx) (r0 r1 : BitVec 32) (hm64 : ctx.mode64 = true) (h0 : r0 < 16#32) (h1 : r1 < 16#32)
+    (hn8 : ∀ k0 k1, e.kinds = [k0, k1] → is8 k0 = false ∧ is8 k1 = false) :
+    ∃ bytes k0 k1, e.kinds = [k0, k1] ∧ emitX86R (opOf e) 0#32 r0 r1 0 0 = .ok bytes ∧
+      formOk ctx e.rule [.reg k0 r0.toNat, .reg k1 r1.toNat] {} bytes = true := by
+  unfold entryOkRRalt at hok
+  split at hok
+  · rename_i f0 f1 k0 k1 hops hkinds
+    obtain ⟨a8, b8⟩ := hn8 k0 k1 hkinds
+    simp only [a8, b8, Bool.false_or, Bool.and_eq_true, beq_iff_eq] at hok
+    obtain ⟨-, hR, hA, ra, rb, pa, pb, n0, n1, m0, m1⟩ := hok
+    obtain ⟨A, hmask⟩ := legAgreeOk_spec _ _ hA
+    have R := legRuleOk_spec _ _ _ hR
+    obtain ⟨bytes, hb, hf⟩ := legR_2reg_formOk ctx e.rule (opOf e) r0 r1 k0 k1 f0 f1 hm64 (by simpa using R.hmodes) hmask h0 h1
+      (plainKind_spec _ pa) (plainKind_spec _ pb) R A true (by simp [ra, rb])
+      (fun ia ib => by rw [hops]; exact alignOps2 _ _ _ _ _ (by rw [formOpMatches_reg_nofix _ _ _ _ n0]; exact m0) (by rw [formOpMatches_reg_nofix _ _ _ _ n1]; exact m1))
+    exact ⟨bytes, k0, k1, hkinds, hb, by simpa using hf⟩
+  · simp at hok
+
+/-- **front_cls_correct, X86Arith with `mod_rm()`**: `op reg, reg` (16 / 32 / 64-bit) in the `op reg, r/m` direction: destination in ModRM.reg,
+source in ModRM.rm - ALL register pairs -/
+theorem front_cls_correct_arith_rr_modrm (e : Entry) (ch : List Entry) (hch : ch ∈ larithrmChunks) (he : e ∈ ch)
+    (ctx : Spec.X86.Ctx) (r0 r1 : BitVec 32) (hm64 : ctx.mode64 = true) (h0 : r0 < 16#32) (h1 : r1 < 16#32)
+    (hn8 : ∀ k0 k1, e.kinds = [k0, k1] → is8 k0 = false ∧ is8 k1 = false) :
+    ∃ bytes k0 k1, e.kinds = [k0, k1] ∧ emitX86R (arithAltOp e) oModRM r0 r1 0 0 = .ok bytes ∧
+      formOk ctx e.rule [.reg k0 r0.toNat, .reg k1 r1.toNat] {} bytes = true := by
+  rw [emitX86R_modrm]
+  exact rr_alt_formOk 0x19 arithAltOp e (mem_chunks_ok arith_alt_entries_ok e ch hch he) ctx r0 r1 hm64 h0 h1 hn8
+
+/-- **front_cls_correct, X86Mov with `mod_rm()`**: `mov reg, reg` (16 / 32 / 64-bit) as `8B /r` -/
+theorem front_cls_correct_mov_rr_modrm (e : Entry) (ch : List Entry) (hch : ch ∈ lmovrmChunks) (he : e ∈ ch)
+    (ctx : Spec.X86.Ctx) (r0 r1 : BitVec 32) (hm64 : ctx.mode64 = true) (h0 : r0 < 16#32) (h1 : r1 < 16#32)
+    (hn8 : ∀ k0 k1, e.kinds = [k0, k1] → is8 k0 = false ∧ is8 k1 = false) :
+    ∃ bytes k0 k1, e.kinds = [k0, k1] ∧ emitX86R (movAltOp e) oModRM r0 r1 0 0 = .ok bytes ∧
+      formOk ctx e.rule [.reg k0 r0.toNat, .reg k1 r1.toNat] {} bytes = true := by
+  rw [emitX86R_modrm]
+  exact rr_alt_formOk 0x2c movAltOp e (mem_chunks_ok mov_alt_entries_ok e ch hch he) ctx r0 r1 hm64 h0 h1 hn8
+
+/-- the class switches with the ModRM option: the FIRST operand goes to ModRM.reg -/
+theorem dispatch_rr_modrm (c : Model.X86.Ctx) (row : Row) (k : RegKind) (i0 i1 : Nat) (hk : k = .gpw ∨ k = .gpd ∨ k = .gpq) :
+    (row.encoding = 0x19 → dispatch c row oModRM (.reg (rtypeOf k) i0) (.reg (rtypeOf k) i1) .none .none =
+        emitX86R (addArithBySize row.mainOp (kindSize k) + 2#32) oModRM (r32 i0) (r32 i1) 0 0) ∧
+    (row.encoding = 0x2c → dispatch c row oModRM (.reg (rtypeOf k) i0) (.reg (rtypeOf k) i1) .none .none =
+        emitX86R (addPrefixBySize 0x89#32 (kindSize k) + 2#32) oModRM (r32 i0) (r32 i1) 0 0) := by
+  rcases hk with h | h | h <;> subst h <;> constructor <;> intro henc <;>
+    simp [dispatch, henc, sig3, Op.kind, Op.id, Op.rmSize, Op.isGp, rtypeOf, kindSize, oModRM]
+
+/-! ### XOP rotate / shift families VexRvmRmv (vpsha*, vpshl*) and VexRvmRmvRmi (vprot*) with `mod_mr()`: the ALTERNATIVE encoding re-packs the
+operands as [reg, vvvv, rm] and sets XOP.W (the W1 form of the database); without W the same bytes would mean "source and count swapped" -/
+
+/-- XOP branch (8F, map >= 8) of `EmitVexEvexR` -/
+theorem xopR_parsed (rule : Rule) (opcode reg vvvvv rm : BitVec 32) (imm : List (BitVec 8))
+    (hr : reg < 16#32) (hv : vvvvv < 16#32) (hm : rm < 16#32) (hxop : opcode &&& 0x800#32 ≠ 0#32) (hll : opcode &&& 0x40001000#32 = 0#32)
+    (R : VexRule rule imm.length) (hs : rule.space = 3) (A : RowAgree rule opcode false) :
+    ∃ p, parse true rule (le32 (vex3Word (vexPrep (xR opcode 0#32 reg vvvvv rm 0#32) opcode 0#32) opcode) ++
+            ([modrmRR (reg + (vvvvv <<< 7)) rm] ++ imm)) = .ok p ∧
+      VexParsed rule p (modrmRR (reg + (vvvvv <<< 7)) rm) ∧
+      regNum p.R' p.R (bits (modrmRR (reg + (vvvvv <<< 7)) rm) 3 3) = reg.toNat ∧
+      regNum p.V' false p.vvvv = vvvvv.toNat ∧
+      regNum (p.vexKind == 4 && p.X) p.B (bits (modrmRR (reg + (vvvvv <<< 7)) rm) 0 3) = rm.toNat ∧ p.imm = imm := by
+  obtain ⟨hop, hmap, hpp, hw, hl⟩ := A
+  have hs' : rule.space = 1 ∨ rule.space = 2 ∨ rule.space = 3 := Or.inr (Or.inr hs)
+  obtain ⟨-, e0, e15, e14, e13, e8, e23, e19, e18, e16, e24⟩ :=
+    vex3_r_roundtrip opcode 0#32 reg vvvvv rm hr hv hm (by decide) hll
+  have hb0 : (vex3Word (vexPrep (xR opcode 0#32 reg vvvvv rm 0#32) opcode 0#32) opcode).truncate 8 = 0x8F#8 := by
+    have := e0 hxop
+    bv_decide
+  have hm8 : ¬ bits ((vex3Word (vexPrep (xR opcode 0#32 reg vvvvv rm 0#32) opcode 0#32) opcode >>> 8).truncate 8) 0 5 < 8 := by
+    have h5 : ((vex3Word (vexPrep (xR opcode 0#32 reg vvvvv rm 0#32) opcode 0#32) opcode >>> 8).truncate 8 : BitVec 8).extractLsb' 0 5 ≥ 8#5 := by bv_decide
+    simp only [bits]
+    have := h5
+    simp only [BitVec.le_def, BitVec.toNat_ofNat, ge_iff_le] at this
+    omega
+  generalize vex3Word (vexPrep (xR opcode 0#32 reg vvvvv rm 0#32) opcode 0#32) opcode = w at *
+  simp only [le32, List.cons_append, List.nil_append, hb0]
+  have hmodb := modrmRR_mod (reg + (vvvvv <<< 7)) rm
+  rw [parse_xop_reg rule _ _ _ _ imm hs R.hpp8 (by rcases R.hmk with h | h <;> simp [h]) hmodb hm8 (by simp [R.himm, R.hrel]) R.hmoff]
+  refine ⟨_, rfl, ?_, ?_, ?_, ?_, rfl⟩
+  · refine ⟨Or.inr (Or.inr (Or.inr rfl)), rfl, rfl, rfl, hmodb, ?_, ?_, ?_, ?_, ?_, ?_, by simp⟩
+    · show (BitVec.truncate 8 (w >>> 24)).toNat = rule.opcode
+      rw [hop]; exact toNat_eq_of_zext _ _ (by omega) (by bv_decide)
+    · show bits _ 0 5 = rule.map
+      rw [hmap]; exact toNat_eq_of_zext _ _ (by omega) (by bv_decide)
+    · show bits _ 0 2 = ppWant rule
+      rw [hpp]; exact toNat_eq_of_zext _ _ (by omega) (by bv_decide)
+    · rw [wWant_nonlegacy rule hs']
+      rcases hw with h | h
+      · exact Or.inl h
+      · right
+        simp only [Bool.false_eq_true, ↓reduceIte] at h
+        have hc : (opcode >>> 27) &&& 1#32 = 0#32 ∨ (opcode >>> 27) &&& 1#32 = 1#32 := by bv_decide
+        rcases hc with hc | hc
+        · rw [h, hc]; simp only [bit]; simp; bv_decide
+        · rw [h, hc]; simp only [bit]; simp; bv_decide
+    · rcases hl with h | h
+      · exact Or.inl h
+      · right; show bits _ 2 1 = rule.l; rw [h]; exact toNat_eq_of_zext _ _ (by omega) (by bv_decide)
+    · intro _
+      show bits _ 2 1 ≤ 1
+      have := (BitVec.extractLsb' 2 1 (BitVec.truncate 8 (w >>> 16))).isLt
+      simp only [bits]; omega
+  · exact regNum_eq _ _ _ reg (by simp only [bit, modrmRR, encodeMod]; bv_decide)
+  · exact regNum_eq4 _ _ vvvvv (by simp only [bit]; bv_decide)
+  · exact regNum_eq _ _ _ rm (by simp only [bit, modrmRR, encodeMod]; simp; bv_decide)
+
+
+theorem emitVexEvexR_modmr (c : Model.X86.Ctx) (opcode opReg rbReg : BitVec 32) (imm : BitVec 64) (n : Nat) :
+    emitVexEvexR c opcode oModMR opReg rbReg imm n = emitVexEvexR c opcode 0#32 opReg rbReg imm n := by
+  have e1 : extractLLMMMMM opcode 256#32 = extractLLMMMMM opcode 0#32 := by simp only [extractLLMMMMM, oEvex]; bv_decide
+  simp [emitVexEvexR, vexEvexROptions, oModMR, e1, oZMask, oER, oSAE, oVex, oVex3, vexPrep]
+
+/-- shape [reg, vvvv, rm], XOP rule: the 8F-prefixed bytes `EmitVexEvexR` emits satisfy the monitor -/
+theorem vexR_rvm_formOk_xop (c : Model.X86.Ctx) (ctx : Spec.X86.Ctx) (rule : Rule) (opcode reg vvvvv rm : BitVec 32)
+    (k0 k1 k2 : RegKind) (f0 f1 f2 : FormOp)
+    (hpe : c.preferEvex = false) (hk : c.extraId = 0#32) (hm64 : ctx.mode64 = true) (hmode : (rule.modes &&& 2 != 0) = true)
+    (hr : reg < 16#32) (hv : vvvvv < 16#32) (hm : rm < 16#32) (hxop : opcode &&& 0x800#32 ≠ 0#32) (hll : opcode &&& 0x40001000#32 = 0#32)
+    (hk0 : PlainKind k0) (hk1 : PlainKind k1) (hk2 : PlainKind k2)
+    (R : VexRule rule 0) (hs : rule.space = 3) (A : RowAgree rule opcode false)
+    (hf0 : f0.role = .reg) (hf1 : f1.role = .vvvv) (hf2 : f2.role = .rm)
+    (hal : alignOps rule.oszEff rule.ops [.reg k0 reg.toNat, .reg k1 vvvvv.toNat, .reg k2 rm.toNat] =
+           some [(f0, some (.reg k0 reg.toNat)), (f1, some (.reg k1 vvvvv.toNat)), (f2, some (.reg k2 rm.toNat))]) :
+    ∃ bytes, emitVexEvexR c opcode 0#32 (reg + (vvvvv <<< 7)) rm 0 0 = .ok bytes ∧
+      formOk ctx rule [.reg k0 reg.toNat, .reg k1 vvvvv.toNat, .reg k2 rm.toNat] {} bytes = true := by
+  have hnev : ¬ (xR opcode 0#32 reg vvvvv rm 0#32 &&& 0x00D78150#32 ≠ 0#32) := by
+    rw [evex_r_chosen_iff opcode 0#32 reg vvvvv rm 0#32 (by bv_decide) (by bv_decide) (by bv_decide) (by decide) (by decide)]
+    intro h
+    rcases h with h | h | h | h | h | h | h <;> bv_decide
+  have h3 : vexPrep (xR opcode 0#32 reg vvvvv rm 0#32) opcode 0#32 &&& 0x8000803E#32 ≠ 0#32 := by
+    simp only [vexPrep, xR, extractLLMMMMM, kLL_Mask, kMM_Mask, oEvex, oVex3]
+    bv_decide
+  rw [emitVexEvexR_branches c opcode reg vvvvv rm 0 0 hpe hk, if_neg hnev, if_pos h3]
+  refine ⟨_, rfl, ?_⟩
+  obtain ⟨p, hp, P, h0, h1, h2, -⟩ := xopR_parsed rule opcode reg vvvvv rm [] hr hv hm hxop hll R hs A
+  simp only [emitImmByteOrDword] at *
+  exact vex_rvm_formOk ctx rule p _ _ k0 k1 k2 f0 f1 f2 _ _ _ (by simpa [hm64] using hmode) hk0 hk1 hk2 R hf0 hf1 hf2 hal (by rw [hm64]; exact hp) P h0 h1 h2
+
+def xopAgreeOk (r : Rule) (op : BitVec 32) : Bool :=
+  r.opcode == (op &&& 0xFF#32).toNat && (r.map == ((op >>> 8) &&& 0xF#32).toNat && (ppWant r == ((op >>> 21) &&& 3#32).toNat &&
+  ((r.w == 2 || r.w == ((op >>> 27) &&& 1#32).toNat) && ((r.l == 3 || r.l == ((op >>> 29) &&& 3#32).toNat) &&
+  (op &&& 0x800#32 != 0#32 && op &&& 0x40001000#32 == 0#32)))))
+
+def xopRuleOk (r : Rule) (nimm : Nat) : Bool :=
+  r.modes &&& 2 != 0 && (r.space == 3 && (r.pp &&& 8 == 0 && (!r.ri && ((r.modKind == 1 || r.modKind == 2) && (r.modr == 8 &&
+  (r.modrm == 8 && (r.immBytes == nimm && (r.relBytes == 0 && (!r.moff && (!r.a67 && (!r.immRev && r.osz == 0)))))))))))
+
+theorem xopRuleOk_spec (r : Rule) (n : Nat) (h : xopRuleOk r n = true) : VexRule r n ∧ r.space = 3 := by
+  simp only [xopRuleOk, Bool.and_eq_true, Bool.or_eq_true, beq_iff_eq, bne_iff_ne, ne_eq, Bool.not_eq_true'] at h
+  obtain ⟨hmodes, hsp, hpp8, hri, hmk, hmr, hmrm, himm, hrel, hmoff, ha67, hrev, hosz⟩ := h
+  exact ⟨⟨hmodes, Or.inr (Or.inr hsp), hpp8, hri, hmk, hmr, hmrm, himm, hrel, hmoff, ha67, hrev, hosz⟩, hsp⟩
+
+def entryOkXopRvm (e : Entry) : Bool :=
+  match e.rule.ops, e.kinds with
+  | [f0, f1, f2], [k0, k1, k2] =>
+    (e.enc == 0x85 || e.enc == 0x88) && (e.rule.space == 3 && (xopRuleOk e.rule 0 && (xopAgreeOk e.rule (e.mainOp ||| kW) &&
+    (f0.role == .reg && (f1.role == .vvvv && (f2.role == .rm && shapeOk3 e.rule f0 f1 f2 k0 k1 k2))))))
+  | _, _ => false
+
+theorem xop_rvm_entries_ok : xrvmChunks.all (fun c => c.all entryOkXopRvm) = true := by decide +kernel
+
+/-- **front_cls_correct, XOP classes VexRvmRmv / VexRvmRmvRmi with `mod_mr()`** (vprotb/w/d/q, vpshab/w/d/q, vpshlb/w/d/q xmm, xmm, xmm): the
+alternative encoding [reg = dst, vvvv = src, rm = count] with XOP.W = 1 - ALL register triples 0..15. -/
+theorem front_cls_correct_xop_rvm_modmr (e : Entry) (ch : List Entry) (hch : ch ∈ xrvmChunks) (he : e ∈ ch)
+    (c : Model.X86.Ctx) (ctx : Spec.X86.Ctx) (reg vvvvv rm : BitVec 32)
+    (hpe : c.preferEvex = false) (hk : c.extraId = 0#32) (hm64 : ctx.mode64 = true)
+    (hr : reg < 16#32) (hv : vvvvv < 16#32) (hm : rm < 16#32) :
+    ∃ bytes k0 k1 k2, e.kinds = [k0, k1, k2] ∧
+      emitVexEvexR c (e.mainOp ||| kW) oModMR (packRegVvvvv reg.toNat vvvvv.toNat) (r32 rm.toNat) 0 0 = .ok bytes ∧
+      formOk ctx e.rule [.reg k0 reg.toNat, .reg k1 vvvvv.toNat, .reg k2 rm.toNat] {} bytes = true := by
+  have hok := mem_chunks_ok xop_rvm_entries_ok e ch hch he
+  unfold entryOkXopRvm at hok
+  split at hok
+  · rename_i f0 f1 f2 k0 k1 k2 hops hkinds
+    simp only [Bool.and_eq_true, Bool.or_eq_true, beq_iff_eq] at hok
+    obtain ⟨-, hsp, hR, hA, r0, r1, r2, hS⟩ := hok
+    obtain ⟨R, -⟩ := xopRuleOk_spec _ _ hR
+    simp only [xopAgreeOk, Bool.and_eq_true, Bool.or_eq_true, beq_iff_eq, bne_iff_ne, ne_eq] at hA
+    obtain ⟨hop, hmap, hpp, hw, hl, hxop, hll⟩ := hA
+    have A : RowAgree e.rule (e.mainOp ||| kW) false := ⟨hop, hmap, hpp, by simpa using hw, hl⟩
+    obtain ⟨p0, p1, p2, hal⟩ := shapeOk3_spec _ _ _ _ _ _ _ hops hS
+    obtain ⟨bytes, hb, hf⟩ := vexR_rvm_formOk_xop c ctx e.rule (e.mainOp ||| kW) reg vvvvv rm k0 k1 k2 f0 f1 f2 hpe hk hm64 (by simpa using R.hmodes) hr hv hm hxop hll
+      p0 p1 p2 R hsp A r0 r1 r2 (hal _ _ _)
+    refine ⟨bytes, k0, k1, k2, hkinds, ?_, hf⟩
+    rw [emitVexEvexR_modmr, packRegVvvvv_eq reg vvvvv (by bv_decide) (by bv_decide)]
+    simpa [r32] using hb
+  · simp at hok
+
+/-- the class switch: with `mod_mr()` the three-register form packs (dst, src) into reg / vvvv, puts the count into ModRM.rm and adds W -/
+theorem dispatch_xop_modmr (c : Model.X86.Ctx) (row : Row) (t0 t1 t2 i0 i1 i2 : Nat) (henc : row.encoding = 0x85 ∨ row.encoding = 0x88) :
+    dispatch c row oModMR (.reg t0 i0) (.reg t1 i1) (.reg t2 i2) .none =
+      emitVexEvexR c (row.mainOp ||| kW) oModMR (packRegVvvvv i0 i1) (r32 i2) 0 0 ∧
+    dispatch c row 0#32 (.reg t0 i0) (.reg t1 i1) (.reg t2 i2) .none =
+      emitVexEvexR c row.mainOp 0#32 (packRegVvvvv i0 i2) (r32 i1) 0 0 := by
+  rcases henc with h | h <;> constructor <;> simp [dispatch, h, sig3, Op.kind, Op.id, oModMR]
+
 end AsmjitVerif.Props.C01
